@@ -612,3 +612,16 @@ Qed.
 
 Lemma emitted_parse md mp s : Inv md mp s -> parse (emitted s) = completed s.
 Proof. intros [_ (_ & (ps & Hpar & _) & _)]. unfold parse. now rewrite Hpar. Qed.
+
+(** fail-stop at the port: once the credit pool is closed (the remote receiver closed or dropped, or the
+    dispatcher and with it the pool is gone) an operation waiting for credits is woken and ends with an
+    error instead of waiting forever *)
+Lemma closed_wakes_waiter s g :
+  closed s = Some g -> running (op s) = true -> needs_credit (op s) = true ->
+  exists s', step_opt s TReq = Some s' /\ op s' = SIdle.
+Proof.
+  intros Hc Hr Hn. cbn [step_opt].
+  destruct (op s) as [|cs rest empty first a fin|first a|rest first a] eqn:Eop; try discriminate; cbn [needs_credit] in Hn.
+  - apply N.eqb_eq in Hn. subst a. rewrite Hc. eexists. split; [reflexivity|]. reflexivity.
+  - rewrite Hn, Hc. eexists. split; [reflexivity|]. reflexivity.
+Qed.
